@@ -12,6 +12,7 @@ import (
 	"time"
 
 	ch "github.com/ClickHouse/ch-go"
+	"github.com/ClickHouse/ch-go/proto"
 
 	"verif/vk"
 	"verif/vrt/vsched"
@@ -196,6 +197,24 @@ func body12(s scn, otel bool, foreign string, f fault) Body {
 	}
 }
 
+// withExternal derives the scenario whose query also ships an external data table under the
+// default table name (the client fills in "_data" itself).
+func withExternal(s scn) scn {
+	mk := s.mk
+	s.name += "-external"
+	s.mk = func(c *Conn, fa *failAt) (ch.Query, []Step) {
+		q, steps := mk(c, fa)
+		ext := proto.ColUInt64{7, 8, 9}
+		q.ExternalData = []proto.InputColumn{{Name: "x", Data: &ext}}
+		out := append([]Step{}, steps...)
+		if len(out) > 0 && out[0].AwaitN == 2 {
+			out[0].AwaitN = 3 // query, external table, its terminator
+		}
+		return q, out
+	}
+	return s
+}
+
 // body12two runs the same scenario on two independent clients (own connection, own peer,
 // same options) from two goroutines: clients that share nothing the caller can see must
 // share nothing at all (package-level caches, pooled encoders, lazily built tables).
@@ -263,7 +282,7 @@ func raceProbeBody() Outcome {
 // C12 — no data race inside the library: the schedules enumerated by the explorer are run
 // under the Go race detector (the scheduler's barrier adds no happens-before edges).
 func C12(c *vk.Ctx) {
-	c.Rule("query scenarios of C04 (insert with progress, streamed insert, LZ4 insert, select, select with logs/profile events), each with OpenTelemetry instrumentation on and off, fault-free, with a server exception at two gates and with the server repeating its header block during an insert, plus Close / IsClosed / cancel from a foreign goroutine, plus two independent clients running the same insert / select side by side under each compression method (Disabled, None, LZ4, LZ4HC, ZSTD; quick tier: default schedule only), plus pool scenarios of C11 (two holders incl. a broken connection, a double release and a stale release after 63 / 64 acquire-release cycles, the health checker destroying expired connections); every schedule up to the deviation bound is executed in a -race build; a report counts when both conflicting accesses are in ch-go packages. distinct_nontrivial = executions.")
+	c.Rule("query scenarios of C04 (insert with progress, streamed insert, LZ4 insert, select, select with an external data table, select with logs/profile events), each with OpenTelemetry instrumentation on and off, fault-free, with a server exception at two gates and with the server repeating its header block during an insert, plus Close / IsClosed / cancel from a foreign goroutine, plus two independent clients running the same insert / select side by side under each compression method (Disabled, None, LZ4, LZ4HC, ZSTD; quick tier: default schedule only), plus pool scenarios of C11 (two holders incl. a broken connection, a double release and a stale release after 63 / 64 acquire-release cycles, the health checker destroying expired connections); every schedule up to the deviation bound is executed in a -race build; a report counts when both conflicting accesses are in ch-go packages. distinct_nontrivial = executions.")
 	rl := newRaceLog()
 	if rl == nil && c.Flavour == "sched-race" {
 		harness("C12 needs GORACE=log_path=...")
@@ -288,6 +307,11 @@ func C12(c *vk.Ctx) {
 		bound = 2
 	}
 	scs := append(scenarios(), earlyProgress())
+	for _, s := range scenarios() {
+		if s.name == "select" {
+			scs = append(scs, withExternal(s))
+		}
+	}
 	type job struct {
 		id   string
 		body Body
@@ -296,7 +320,7 @@ func C12(c *vk.Ctx) {
 	}
 	var jobs []job
 	for _, s := range scs {
-		core := s.name == "insert-early-progress" || s.name == "select"
+		core := s.name == "insert-early-progress" || s.name == "select" || s.name == "select-external"
 		if quick && (s.name == "insert-stream-zstd" || s.name == "select-lz4" || s.name == "insert-lz4") {
 			continue
 		}
